@@ -293,7 +293,7 @@ func kindKey(kind, name string) simcluster.Key {
 	case "Widget":
 		return simcluster.Key{Group: "verif.example", Version: "v1", Resource: "widgets", Namespace: RelNS, Name: name}
 	case "Gadget":
-		return simcluster.Key{Group: "verif.example", Version: "v1", Resource: "gadgets", Namespace: RelNS, Name: name}
+		return simcluster.Key{Group: "verif.example", Version: "v1", Resource: "gadgets", Name: name} // cluster-scoped
 	case "Job":
 		return simcluster.Key{Group: "batch", Version: "v1", Resource: "jobs", Namespace: RelNS, Name: name}
 	case "CustomResourceDefinition":
